@@ -206,6 +206,8 @@ impl<R: Read> JsonParserUtils for Reader<R> {
             self.parse_to_double(&str)
         } else if negative {
             match str.parse::<i64>() {
+                // -0 is the integer zero, like the -0.0 that becomes it in From<f64>.
+                Ok(0) => Ok(JsonValue::Number(NumberValue::Positive(0))),
                 Ok(i) => Ok(JsonValue::Number(NumberValue::Negative(i))),
                 Err(e) => {
                     let kind = e.kind();
